@@ -120,6 +120,8 @@ def op_3d(draw, T, methods=None):
         return {"m": m, "a": [draw(index_in(T.n_tr, bs[1]))]}
     if m in ("get_tracefield_values", "attributes"):
         return {"m": m, "a": [draw(st.sampled_from(T.owners))]}
+    if m == "meta":
+        return {"m": m, "a": []}
     raise ValueError(m)
 
 
@@ -152,6 +154,8 @@ def op_2d(draw, T, methods=None):
         return {"m": m, "a": list(draw(range_in(n_tr, bs[1]))) + list(draw(range_in(n_s, bs[2])))}
     if m in ("get_tracefield_values", "attributes"):
         return {"m": m, "a": [draw(st.sampled_from(T.owners))]}
+    if m == "meta":
+        return {"m": m, "a": []}
     raise ValueError(m)
 
 
@@ -174,6 +178,8 @@ def methods_for(T, reader_only=False, emu_only=False, samples_only=False):
         ms = [m for m in ms if m not in METHODS_3D_HEADERS]
     if not T.owners:
         ms = [m for m in ms if m not in ("get_tracefield_values", "attributes")]
+    if not emu_only and not samples_only:
+        ms = list(ms) + ["meta"]     # applicable to every file; only C02 and C15 generate it
     return ms
 
 
@@ -228,6 +234,12 @@ def expected(T, op):
         if T.is_2d:
             return "ints", np.asarray(col)
         return "ints", np.asarray(col).reshape(T.n_il, T.n_xl)
+    if m == "meta":
+        # what the file says about itself: source hash, SEG-Y file headers, trace count, sample axis
+        full = T.s.data_start >= 8192     # the first format revision has a 4 KiB header without SEG-Y file headers
+        return "meta", {"hash": T.s.hash, "text": T.raw[4096:4096 + 3200] if full else None,
+                        "bin": T.raw[4096 + 3200:4096 + 3600] if full else None,
+                        "tracecount": T.n_tr, "samples": np.asarray(T.samples, dtype=np.float64)}
     if m == "attributes":
         # the emulator's attributes(field): the stored array as one flat vector (grid order, zeros at holes)
         return "ints", np.asarray(T.cols[a[0]]).reshape(-1)
@@ -359,6 +371,11 @@ def perform(H, op):
         return H.reader.gen_trace_header(a[0], load_all_headers=True)
     if m == "get_tracefield_values":
         return H.reader.get_tracefield_values(a[0])
+    if m == "meta":
+        r = H.reader
+        h = r.get_source_data_hash()
+        return {"hash": bytes.fromhex(h) if isinstance(h, str) else bytes(h), "text": bytes(r.file_text_header),
+                "bin": bytes(r.file_binary_header), "tracecount": int(r.tracecount), "samples": np.asarray(r.zslices, dtype=np.float64)}
     # emulator
     if m == "iline":
         return H.emu.iline[int(T.ilines[a[0]])]
@@ -414,6 +431,13 @@ def perform(H, op):
 
 def compare(kind, got, want, op):
     """Raise Violation if the library's result differs from the expected one."""
+    if kind == "meta":
+        for k in ("hash", "text", "bin", "tracecount"):
+            if want[k] is not None and got[k] != want[k]:
+                raise Violation(f"wrong-meta:{k}", f"{k}: {str(got[k])[:40]!r} vs {str(want[k])[:40]!r}")
+        if len(got["samples"]) != len(want["samples"]) or (np.abs(got["samples"] - want["samples"]) > 1e-9 + 1e-12 * np.abs(want["samples"])).any():
+            raise Violation("wrong-meta:samples", f"{got['samples'][:3]} vs {want['samples'][:3]}")
+        return
     if kind in ("array", "trace"):
         g = np.asarray(got)
         w = np.asarray(want)
@@ -489,6 +513,8 @@ def concretise(T, a):
             return {"m": m, "a": [*_rng(u[0], u[1], T.n_tr), *_rng(u[2], u[3], T.n_s)]}
         if m in ("get_tracefield_values", "attributes"):
             return {"m": m, "a": [T.owners[_idx(u[0], len(T.owners))]]}
+        if m == "meta":
+            return {"m": m, "a": []}
         return None
     n_il, n_xl, n_s = T.n_il, T.n_xl, T.n_s
     if m in ("read_inline", "read_inline_number", "iline"):
@@ -531,6 +557,8 @@ def concretise(T, a):
         return op
     if m in ("get_tracefield_values", "attributes"):
         return {"m": m, "a": [T.owners[_idx(u[0], len(T.owners))]]}
+    if m == "meta":
+        return {"m": m, "a": []}
     return None
 
 
